@@ -15,6 +15,7 @@ type Env struct {
 	v      *FnVC
 	vars   map[string]Term
 	lookup func(name string) (Term, bool)
+	lookupAt func(name string, st *State) (Term, bool) // like lookup, for the state the expression is evaluated in (old() aware)
 	st     *State
 	old    *State
 	pkg    *types.Package
@@ -334,6 +335,11 @@ func (v *FnVC) evalIdent(name string, env *Env) Term {
 	}
 	if strings.HasPrefix(name, "&") {
 		if t, ok := v.addrOfLocal(name[1:]); ok {
+			return t
+		}
+	}
+	if env.lookupAt != nil {
+		if t, ok := env.lookupAt(name, env.st); ok {
 			return t
 		}
 	}
@@ -664,6 +670,37 @@ func (v *FnVC) evalCall(e *ECall, env *Env) Term {
 	switch name {
 	case "old":
 		return v.evalTerm(e.Args[0], env.atOld())
+	case "at", "passed": // at(L, e): e in the state before the call labelled L; passed(L): that call was reached
+		if id, ok := e.Args[0].(*EIdent); ok && v.C != nil && len(v.C.Labels) > 0 {
+			isLabel := false
+			for _, lb := range v.C.Labels {
+				if lb.C.Text == id.Name {
+					isLabel = true
+				}
+			}
+			if isLabel {
+				st := v.labelStates[id.Name]
+				if st == nil {
+					v.fail("label %s used before the labelled call was encoded (or the call does not exist)", id.Name)
+				}
+				if name == "passed" {
+					return boolT(v.labelGuards[id.Name])
+				}
+				n := *env
+				n.st = st
+				site := v.labelSites[id.Name]
+				blk, ins := site[0].(*ssa.BasicBlock), site[1].(ssa.Instruction)
+				n.lookupAt = func(nm string, s2 *State) (Term, bool) { return v.localByNameAt(nm, blk, ins, s2) }
+				n.lookup = nil
+				return v.evalTerm(e.Args[1], &n)
+			}
+		}
+		if name == "passed" {
+			v.fail("unknown identifier: label %s of passed() is not a label of this function", e.Args[0].String())
+		}
+		a := v.evalTerm(e.Args[0], env)
+		i := v.evalTerm(e.Args[1], env)
+		return v.indexTerm(a, i, env)
 	case "len":
 		a := v.evalTerm(e.Args[0], env)
 		return v.lenTerm(a, env)
@@ -681,10 +718,6 @@ func (v *FnVC) evalCall(e *ECall, env *Env) Term {
 			}
 		}
 		return boolT(fmt.Sprintf("(select %s %s)", m.S, k.S))
-	case "at":
-		a := v.evalTerm(e.Args[0], env)
-		i := v.evalTerm(e.Args[1], env)
-		return v.indexTerm(a, i, env)
 	case "ite":
 		c := v.evalBool(e.Args[0], env)
 		a := v.evalTerm(e.Args[1], env)
